@@ -64,13 +64,12 @@ def popcount : Nat → Nat → Nat
   | 0, _ => 0
   | fuel + 1, x => if x = 0 then 0 else x % 2 + popcount fuel (x / 2)
 
-/-- `Lfsr::next`: `assert!(i <= 1)`. -/
+/-- `Lfsr::next` (the low bit of the input byte is used). -/
 def lfsrNext (mask len : Nat) (reg : Nat) (i : Nat) : Option (Nat × Nat) :=
-  if i > 1 then none
-  else
-    let ret := (popcount 64 (reg &&& mask) % 256 % 2) ^^^ i
-    let reg' := ((reg >>> 1) ||| (i <<< len)) % 2 ^ 64
-    some (reg', ret)
+  let i := i % 2
+  let ret := (popcount 64 (reg &&& mask) % 256 % 2) ^^^ i
+  let reg' := ((reg >>> 1) ||| (i <<< len)) % 2 ^ 64
+  some (reg', ret)
 
 def descrambler (mask seed len : Nat) : SyncSpec :=
   pureSync Nat seed 1 1 fun reg xs =>
